@@ -746,6 +746,8 @@ class MInplace(e1.Op):
             args["opts"] = rng.choice([{"tol": 1e-15}, {"D_total": 4096}, {"D_total": 4096, "tol": 1e-15, "D_block": 4096}])
         if kind == "truncate_bind":
             args["prepare"] = True       # bring to the documented opposite canonical form first
+        if g.task.cfgspec.get("no_randomised") and "policy" in args.get("opts", {}):
+            args["opts"] = {"D_total": 2}      # partial-SVD policies start ARPACK from a random vector: results are not a function of the arguments alone
         return {"op": "m_inplace", "in": [a], "args": args}
 
     def run(self, task, rec, ins):
